@@ -46,7 +46,12 @@ def _wrap(args):
 
 
 def pmap(func, items, procs=None, chunk=1):
-    """Ordered parallel map over a fork pool; func must be a module-level function."""
+    """Ordered parallel map over a fork pool; func must be a module-level function.
+    A worker that dies (segfault, kill) or a job that exceeds VERIF_JOB_TIMEOUT is reported as an error for that
+    item and the pool is rebuilt for the remaining items - the check never hangs on it."""
+    from concurrent.futures import ProcessPoolExecutor, TimeoutError as FTimeout
+    from concurrent.futures.process import BrokenProcessPool
+
     items = list(items)
     if procs is None:
         procs = min(int(os.environ.get("VERIF_PROCS", "16")), max(1, len(items)))
@@ -55,10 +60,42 @@ def pmap(func, items, procs=None, chunk=1):
         for it in items:
             yield _wrap((func, it))
         return
+    job_timeout = float(os.environ.get("VERIF_JOB_TIMEOUT", "3000"))
     ctx = mp.get_context("fork")
-    with ctx.Pool(procs, initializer=_init) as pool:
-        for r in pool.imap(_wrap, [(func, it) for it in items], chunksize=chunk):
-            yield r
+    pos = 0
+    while pos < len(items):
+        ex = ProcessPoolExecutor(max_workers=procs, mp_context=ctx, initializer=_init)
+        futs = [ex.submit(_wrap, (func, it)) for it in items[pos:]]
+        broken = False
+        try:
+            for f in futs:
+                try:
+                    r = f.result(timeout=job_timeout)
+                except BrokenProcessPool:
+                    r = ("err", {"item": _short(items[pos]), "error": "worker process died"})
+                    broken = True
+                except FTimeout:
+                    r = ("err", {"item": _short(items[pos]), "error": f"job exceeded {job_timeout}s"})
+                    broken = True
+                pos += 1
+                yield r
+                if broken:
+                    break
+        finally:
+            if broken:
+                for f in futs:
+                    f.cancel()
+                for p_ in list(getattr(ex, "_processes", {}).values()):
+                    try:
+                        p_.kill()
+                    except Exception:
+                        pass
+            ex.shutdown(wait=not broken, cancel_futures=True)
+
+
+def _short(item):
+    s = jdump(item)
+    return s if len(s) < 600 else s[:600] + "..."
 
 
 def _init_local():
